@@ -250,7 +250,7 @@ def random_plan(seed, tier):
             if ph == 'conf' or r < 0.6:
                 items.append({'k': 'fault', 'id': ident})
             elif r < 0.85:
-                form = g.choice(['%', 'run', '$'])
+                form = g.choice(['%', 'run', '$'] + (['file'] if ph != 'assert' else []))
                 items.append({'k': 'probe', 'id': ident, 'form': form})
                 procs[ident] = {'exit': 0, 'stdout': g.choice(['', 'x\n'])}
             elif r < 0.95 or ph == 'conf':
